@@ -2,3 +2,15 @@ from _common import *
 GROUPS = [
     order_group('C12', 'C12.O1.prioq_order', 'ORDER_PRIOQ', 'compare_func', 'src/cmb_priorityqueue.c', also=['C02']),
 ]
+
+_oq_stubs = ['cmb_resourceguard_wait/_signal, cmb_timeseries_add, cmb_time: contract stubs (harness/cmv_guardstub.h)', 'cmi_mempool_alloc/_free redirected to plain allocation (contract of C20)']
+def _oq(gid, entry, define, bound, canaries=1):
+    return Group(id=gid, prop='C12', harness='objq.c', entry=entry, defines=[define], level='bounded-unwind', bound=bound, backend='sat', timeout=600, tier='quick',
+                 unwind=6, canaries=canaries, functions=['cmb_objectqueue_get', 'cmb_objectqueue_put', 'cmb_objectqueue_position', 'cmb_objectqueue_length/_space', 'record_sample', 'has_content', 'has_space'],
+                 stubs=_oq_stubs, also=['C08', 'C14', 'C10'], replace_calls=[('cmi_mempool_alloc', 'cmv_pool_alloc'), ('cmi_mempool_free', 'cmv_pool_free')],
+                 assumes=['<= 3 queued objects in any observed state, <= 2 waits per call followed', 'other processes change the queue only through the API'])
+GROUPS += [
+    _oq('C12.O2.objectqueue_get', 'h_get', 'H_GET', 'arbitrary queue of <= 3 objects (NULL, duplicates), any capacity; environment replaces the queue at every wait', canaries=2),
+    _oq('C12.O2.objectqueue_put', 'h_put', 'H_PUT', 'arbitrary queue of <= 3 objects, any capacity incl. 1 and unlimited', canaries=2),
+    _oq('C12.O3.objectqueue_queries', 'h_misc', 'H_MISC', 'arbitrary queue of <= 3 objects'),
+]
